@@ -61,6 +61,8 @@ pub enum TypeErrorEnum {
     MissingStructField(String, String),
     /// The struct definition or constructor names the specified field more than once.
     DuplicateStructField(String, String),
+    /// The enum definition declares the specified variant name more than once.
+    DuplicateEnumVariant(String, String),
     /// No enum declaration with the specified name exists.
     UnknownEnum(String, String),
     /// The enum exists, but no variant declaration with the specified name was found.
@@ -174,6 +176,9 @@ impl std::fmt::Display for TypeErrorEnum {
             )),
             TypeErrorEnum::DuplicateStructField(struct_name, field) => f.write_fmt(format_args!(
                 "The field '{field}' of struct '{struct_name}' is given multiple times"
+            )),
+            TypeErrorEnum::DuplicateEnumVariant(enum_name, variant) => f.write_fmt(format_args!(
+                "The variant '{variant}' of enum '{enum_name}' is declared multiple times"
             )),
             TypeErrorEnum::ExpectedBoolOrNumberType(ty) => f.write_fmt(format_args!(
                 "Expected a Boolean or number type, but found {ty}"
@@ -590,7 +595,16 @@ impl UntypedProgram {
         for (enum_name, enum_def) in self.enum_defs.iter() {
             let meta = enum_def.meta;
             let mut variants = Vec::with_capacity(enum_def.variants.len());
-            for variant in enum_def.variants.iter() {
+            for (i, variant) in enum_def.variants.iter().enumerate() {
+                if enum_def.variants[..i]
+                    .iter()
+                    .any(|v| v.variant_name() == variant.variant_name())
+                {
+                    // variant names are unique (lookups by name would see only one of the variants)
+                    let name = variant.variant_name().to_string();
+                    let e = TypeErrorEnum::DuplicateEnumVariant(enum_name.clone(), name);
+                    errors.push(Some(TypeError::new(e, meta)));
+                }
                 variants.push(match variant {
                     Variant::Unit(variant_name) => Variant::Unit(variant_name.clone()),
                     Variant::Tuple(variant_name, variant_fields) => {
